@@ -181,4 +181,5 @@ int ExprMain(int argc, char** argv) {
   out.line({{"done", true}, {"n", (long)trees.size() - from}, {"failed", nfail}, {"nontrivial", nontrivial}});
   return 0;
 }
+static Register regExpr("expr", ExprMain);
 }  // namespace vf
